@@ -97,3 +97,43 @@ def dominates_ok_returns(body, bb):
     """bb dominates every non-error definition of the return value"""
     oks = ok_defs(body)
     return bool(oks) and all(body.cfg.dominates(bb, b) for b, _ in oks)
+
+
+def dispatch_arms(body):
+    """The `match chunk_type { .. }` of parse_frame as a list of (kind, entry block, region, outer switch block): the region of a
+    kind is what executes when the chunk has that kind.  Usually one switch; when arms have been merged (`A | B => { shared;
+    match chunk_type { A => .., B => .. } }`) the inner switches on the same discriminant are followed along the matching edge
+    only, so every kind still gets its own region.  Returns None when no dispatch switch is found."""
+    import C10 as _c10
+    sws = [s for s in q.switches_on(body, lambda d: d[0] == 'discr') if 'OldPalette04' in _c10.switch_variants(body, s).values()]
+    if not sws:
+        return None
+    outer = [s for s in sws if all(body.cfg.dominates(s, o) for o in sws)]
+    if len(outer) != 1:
+        return None
+    outer = outer[0]
+    d0 = q.switch_cond(body, outer)
+    inner = [s for s in sws if s != outer and q.switch_cond(body, s) == d0]
+    if len(inner) != len(sws) - 1:
+        return None          # a second match on a *different* chunk: not the shape this helper understands
+    names = _c10.switch_variants(body, outer)
+    tm = body.blocks[outer]['term']
+    out = []
+    for v, s in tm['targets']:
+        kind = names.get(v, str(v))
+        base = q.edge_region(body, outer, s)
+        reg = set()
+        work = [s]
+        while work:
+            x = work.pop()
+            if x in reg or x not in base:
+                continue
+            reg.add(x)
+            if x in inner:
+                t2 = body.blocks[x]['term']
+                nxt = [s2 for v2, s2 in t2['targets'] if v2 == v] or [t2['otherwise']]
+                work.extend(nxt)
+            else:
+                work.extend(body.cfg.succ[x])
+        out.append((kind, s, reg, outer))
+    return out
